@@ -693,6 +693,8 @@ impl BytecodeVM {
     /// This method enables step-by-step execution for host-controlled interruption.
     #[inline]
     pub fn step(&mut self, interp: &mut Interpreter) -> VmStepResult {
+        #[cfg(tsrun_verif)]
+        crate::interpreter::verif::count_instruction();
         let Some(op) = self.fetch() else {
             // End of bytecode - return last result or undefined
             let result = self
@@ -850,6 +852,9 @@ impl BytecodeVM {
     /// This method runs until a terminal state is reached. For step-by-step control,
     /// use the `step()` method instead.
     pub fn run(&mut self, interp: &mut Interpreter) -> VmResult {
+        // run() loops to completion on the native stack: every activation is a re-entry the host cannot interrupt
+        #[cfg(tsrun_verif)]
+        let _reentry = crate::interpreter::verif::ReentryGuard::enter();
         loop {
             match self.step(interp) {
                 VmStepResult::Continue => continue,
